@@ -3,11 +3,12 @@
    check accepts and every sequence of logged draws whose random_bits values are not negative, whatever spok_gen returns
    passes spok_verify (nine-response protocol: nisp5_complete; per-attribute opening proofs: nisp2sec_complete_u; all range
    proofs: boudot_complete); an accepted proof has its range proof on e made for the commitment Ce of the sigma protocol
-   and passes the five-equation check.  Rejection of mismatching statements / edited fields: correspondence + sweep
+   and passes the five-equation check; the per-attribute opening proofs (nisp2sec) are specially sound and rigid (ClSound2.v).  Rejection of mismatching statements / edited fields: correspondence + sweep
    (all subsets U for n <= 3 / 5). *)
 From ZK Require Import Cl ClArith ClSig ClMore ClGroup ClBoudot ModelLemmas ClSpok ClSpok2 ClSpok3.
 From ZK Require Import ClTies.
 From ZK Require Import ClConsts ClExample.
+From ZK Require Import ClSound ClSound2.
 
 Theorem C15_spok_accepts_ties_Ce :
   forall CS BP p ck pk bases rmsgs U nsm,
@@ -157,3 +158,85 @@ Check (C15_spok_accepts_lengths :
   spok_verify CS BP p ck pk bases rmsgs U nsm = Ok true ->
   length (sp_s5 (pk_spok p)) = length U /\ length (pk_pmi p) = length U /\ length (pk_rpmi p) = length U).
 Print Assumptions C15_spok_accepts_lengths.
+
+(* acceptance of an opening proof: the first message it carries is the one recomputed from the responses *)
+Theorem C15_nisp2sec_accepts :
+  (forall n : Z,
+0 < n ->
+forall g gi h hi : Z,
+invert g n = Some gi ->
+invert h n = Some hi ->
+forall (p : nisps) (c : commitment) (Ci : Z),
+invert (c_value c) n = Some Ci ->
+nisp2sec_verify p c g h n = Ok true ->
+ssW n g gi h hi (c_value c) Ci (ns_s1 p) (ns_s2 p) (ns_chal g h p c) =
+ns_t p mod n)%Z.
+Proof. exact nisp2sec_accepts. Qed.
+Check (C15_nisp2sec_accepts :
+  (forall n : Z,
+0 < n ->
+forall g gi h hi : Z,
+invert g n = Some gi ->
+invert h n = Some hi ->
+forall (p : nisps) (c : commitment) (Ci : Z),
+invert (c_value c) n = Some Ci ->
+nisp2sec_verify p c g h n = Ok true ->
+ssW n g gi h hi (c_value c) Ci (ns_s1 p) (ns_s2 p) (ns_chal g h p c) =
+ns_t p mod n)%Z).
+Print Assumptions C15_nisp2sec_accepts.
+
+(* one first message answered for two challenges: g^(ds1) h^(ds2) == C^(dc) *)
+Theorem C15_nisp2sec_special_soundness :
+  (forall n : Z,
+0 < n ->
+forall g gi h hi : Z,
+invert g n = Some gi ->
+invert h n = Some hi ->
+forall C Ci s1 s2 c s1' s2' c' : Z,
+invert C n = Some Ci ->
+ssW n g gi h hi C Ci s1 s2 c = ssW n g gi h hi C Ci s1' s2' c' ->
+Zdiv.eqm n (gp n g gi (s1 - s1') * gp n h hi (s2 - s2'))
+  (gp n C Ci (c - c')))%Z.
+Proof. exact nisp2sec_special_soundness. Qed.
+Check (C15_nisp2sec_special_soundness :
+  (forall n : Z,
+0 < n ->
+forall g gi h hi : Z,
+invert g n = Some gi ->
+invert h n = Some hi ->
+forall C Ci s1 s2 c s1' s2' c' : Z,
+invert C n = Some Ci ->
+ssW n g gi h hi C Ci s1 s2 c = ssW n g gi h hi C Ci s1' s2' c' ->
+Zdiv.eqm n (gp n g gi (s1 - s1') * gp n h hi (s2 - s2'))
+  (gp n C Ci (c - c')))%Z).
+Print Assumptions C15_nisp2sec_special_soundness.
+
+(* two accepted opening proofs of one commitment with the same first message differ by a relation between g and h *)
+Theorem C15_nisp2sec_rigid :
+  (forall n : Z,
+0 < n ->
+forall g gi h hi : Z,
+invert g n = Some gi ->
+invert h n = Some hi ->
+forall (p p' : nisps) (c : commitment) (Ci : Z),
+invert (c_value c) n = Some Ci ->
+nisp2sec_verify p c g h n = Ok true ->
+nisp2sec_verify p' c g h n = Ok true ->
+ns_t p = ns_t p' ->
+Zdiv.eqm n
+  (gp n g gi (ns_s1 p - ns_s1 p') * gp n h hi (ns_s2 p - ns_s2 p')) 1)%Z.
+Proof. exact nisp2sec_rigid. Qed.
+Check (C15_nisp2sec_rigid :
+  (forall n : Z,
+0 < n ->
+forall g gi h hi : Z,
+invert g n = Some gi ->
+invert h n = Some hi ->
+forall (p p' : nisps) (c : commitment) (Ci : Z),
+invert (c_value c) n = Some Ci ->
+nisp2sec_verify p c g h n = Ok true ->
+nisp2sec_verify p' c g h n = Ok true ->
+ns_t p = ns_t p' ->
+Zdiv.eqm n
+  (gp n g gi (ns_s1 p - ns_s1 p') * gp n h hi (ns_s2 p - ns_s2 p')) 1)%Z).
+Print Assumptions C15_nisp2sec_rigid.
